@@ -830,6 +830,7 @@ func ReplayC13(path string, rep *core.Reporter) (int, error) {
 		return 2, err
 	}
 	defer t.Close()
+	rep.ReplayPath = path
 	st := &c13State{x: &Executor{T: t}, rep: rep, seed: doc.Seed, models: map[string]*model{}, distinct: map[string]bool{},
 		fired: map[string]int{}, probes: map[string]int{}, p1: map[string]bool{}}
 	var sig core.Signature
@@ -860,6 +861,7 @@ func ReplayC13(path string, rep *core.Reporter) (int, error) {
 		fmt.Printf("replay: signature differs from the recorded one (%s)\n", doc.Signature.String())
 	}
 	if doc.Replay.Mode == "run" {
+		rep.ReplayPath = path
 		rep.Report(sig, detail, doc.Replay)
 	}
 	return 1, nil
